@@ -122,4 +122,7 @@ def runAll (prog : Call → Body) : Nat → St → List Call → Option (St × L
       | some (s2, ms) => some (s2, m :: ms)
 end
 
+/-- `GeneratorCache.reset()`: the memo is emptied; modules made so far stay what they are, new ones get new identities -/
+def St.reset (s : St) : St := { s with done := [] }
+
 end Hdl21.Naming
